@@ -33,6 +33,7 @@ theorem Transc.real_lawful : Transc.real.Lawful where
   pow10_pos := fun x => Real.rpow_pos_of_pos (by norm_num) x
   pow10_add := fun x y => Real.rpow_add (by norm_num) x y
   pow10_zero := Real.rpow_zero 10
+  pow10_strictMono := fun x y h => Real.rpow_lt_rpow_of_exponent_lt (by norm_num) h
   log10_mul := fun x y hx hy => Real.logb_mul hx.ne' hy.ne'
   log10_one := Real.logb_one
   exp_ln := fun x hx => Real.exp_log hx
